@@ -455,7 +455,7 @@ def run(tier, seed):
     rep.rule = (
         "internal_dir x data_dir forms %r (all combinations) x cache_objects %r; per configuration: process A keeps two nodes, loads, re-keeps, chdirs, loads and re-keeps again; "
         "process B (other cwd, absolute real paths) and process C (same cwd and spelling) load and re-keep with an empty execution log; two-view scripts (one internal dir, two data dirs) in one process and "
-        "with one process per view switch; and opening further stores on directories that hold the files of a writer in mid-flight (nothing that exists may disappear or change); the same directory names configured twice in one process around a re-pointed `current` link; set_store with only some of the directories given. distinct_nontrivial = distinct configurations whose processes were all observed." % (FORMS, CACHE)
+        "with one process per view switch; and opening further stores on directories that hold the files of a writer in mid-flight (nothing that exists may disappear or change); the same directory names configured twice in one process around a re-pointed `current` link; set_store with only some of the directories given; one data directory used with two internal directories in turn, the first one removed afterwards. distinct_nontrivial = distinct configurations whose processes were all observed." % (FORMS, CACHE)
     )
     jobs = []
     for i, iform in enumerate(FORMS):
@@ -480,7 +480,17 @@ def run(tier, seed):
         for which in ("data_only", "internal_only", "neither"):
             jobs.append(("partial", (c, which)))
 
+    # one data directory taken over by a store with another internal directory (the first one is removed afterwards)
+    from vp import progs
+
+    for ci, c in enumerate((None, 3, True)):
+        jobs.append(("takeover", (progs.base_program("c16t%d" % ci, layout=("three", "one", "deep")[ci]), c, ci)))
+
     def dispatch(j):
+        if j[0] == "takeover":
+            from checks import c04
+
+            return c04.moved_internal_job(j[1], prop="C16")
         return {"case": case_job, "views": views_job, "open": open_job, "repoint": repoint_job, "partial": partial_job}[j[0]](j[1])
 
     results = core.fork_map(dispatch, jobs, timeout=600)
@@ -498,7 +508,11 @@ def run(tier, seed):
 def replay(payload):
     rep = core.Report("C16")
     c = payload["case"]
-    if c.get("partial"):
+    if c.get("moved_internal"):
+        from checks import c04
+
+        rep.merge(c04.moved_internal_job((c["program"], c["cache"], c["idx"]), prop="C16"))
+    elif c.get("partial"):
         rep.merge(partial_job((c["cache_objects"], c["which"])))
     elif c.get("repoint"):
         rep.merge(repoint_job((c["cache_objects"], c["relative"])))
